@@ -22,7 +22,7 @@ KNOWN_SITES = {   # MIR function containing the iteration -> how it is analysed
 }
 
 
-KEYS3 = ['m', 'b', 'z']       # insertion order differs from sorted order
+KEYS3 = ['m', 'M', 'b']       # insertion order differs from sorted order; two keys differ only in letter case
 
 
 def iteration_sites(mir):
@@ -182,15 +182,20 @@ def replay(ctx, f):
     cex = f.get('cex') or {}
     out = {'reproduced': None}
     if 'a' not in cex: return out
-    src = program_for(cex)
-    if src is None: return out
-    out['program'] = src
     from ..native import Native
     seen = set()
+    if cex['fn'] == 'display':
+        src = None; req = {'op': 'val', 'fn': 'build', 'a': cex['a']}      # rendering of the array by its Display impl
+    else:
+        src = program_for(cex)
+        if src is None: return out
+        out['program'] = src
+        req = {'op': 'program', 'src': src, 'stdin': ''}
     for prof in ('dev', 'release'):
         for i in range(48):
             nat = Native(ctx.ws, prof)
-            r = nat.call({'op': 'program', 'src': src, 'stdin': ''}); nat.close()
+            r = nat.call(req); nat.close()
+            if 'val' in r: r = {'stdout': r['val'].get('display')}
             seen.add(json.dumps({k: r.get(k) for k in ('stdout', 'result', 'error_display', 'panic')}, sort_keys=True))
             if len(seen) > 1: break
         if len(seen) > 1: break
